@@ -329,3 +329,10 @@ Definition rfc_pattern (prec : Z) : text :=
   RFC_BASE ++ (match prec with 0 => [] | 2 => [46;110;110] | 3 => [46;110;110;110] | 6 => [46;110;110;110;110] | _ => [46;110;110;110;110;110] end)
   ++ [88;88;88].
 Definition dt_format_rfc3339 (v : DT) (prec : Z) : res text := dt_format v (rfc_pattern prec).
+
+(* FromStr: Date = parse(s, "yyyy-MM-dd"), Time = parse(s, "HH:mm:ss"), DateTime = parse_rfc3339 *)
+Definition P_DATE_ISO : text := [121;121;121;121;45;77;77;45;100;100].
+Definition P_TIME : text := [72;72;58;109;109;58;115;115].
+Definition date_from_str (now_year : Z) (s : text) : res Z := date_parse now_year s P_DATE_ISO.
+Definition time_from_str (s : text) : res TM := time_parse s P_TIME.
+Definition dt_from_str (s : text) : res DT := dt_parse_rfc3339 s.
